@@ -708,6 +708,9 @@ impl<'a, P: ProcessRun> PubPoint<'a, P> {
                     Ok(res) => return Ok(res),
                     Err(mut this) => {
                         this.metrics = Default::default();
+                        // Drop whatever the processor has collected from
+                        // the abandoned collected manifest.
+                        this.processor.restart()?;
                         return Ok(this.process_stored(store, metrics)?)
                     }
                 }
